@@ -168,3 +168,14 @@ func concurrentDecoders(c *Collector, key string, inputs []string) {
 		c.Fail(key, "decoding the same inputs from 16 goroutines at once did not behave like decoding them one after the other: "+werr.Error()+": "+trunc(msg, 400), map[string]any{"inputs (kind hex)": show, "count": len(inputs)})
 	}
 }
+
+// inflight leaves a note of the operation about to run (in the run's output directory): if the process dies in it
+// (a fatal runtime error cannot be recovered) the checker reports the note as the failing input.
+func inflight(what, kind string, data []byte) {
+	dir := os.Getenv("HARNESS_OUT")
+	if dir == "" {
+		return
+	}
+	os.MkdirAll(dir, 0o755)
+	os.WriteFile(dir+"/inflight.json", []byte(fmt.Sprintf(`{"operation": %q, "kind": %q, "data": %q}`, what, kind, hx(data))), 0o644)
+}
